@@ -18,14 +18,19 @@ MANIFEST = {
                   "reject_too_few / reject_bad_indices / combine_value_only_if_wellformed / combine_wellformed_ok: fewer than t shares, "
                   "a repeated index or index 0 among the shares used give invalid-argument whatever the bytes are; a value is presented "
                   "only for well-formed sets; combine never hangs and does not throw on well-formed sets. (5) secrecy: for any t-1 "
-                  "distinct non-zero indices and any candidate secret byte the map coefficient vector -> share-value vector is a bijection. "
+                  "distinct non-zero indices and any candidate secret byte the map coefficient vector -> share-value vector is a bijection; "
+                  "secrecy_joint / draws_fresh_per_byte: for the whole 32-byte secret, with the draw-consumption pattern of the source (the "
+                  "random device is called inside the per-byte loop: coefficient d of byte b is draw b(t-1)+d, 32(t-1) distinct draws, "
+                  "regenerated flag kDrawPerByte) the map from all 32(t-1) draws to all 32(t-1) bytes of any t-1 shares is a bijection for "
+                  "every secret; shared_draws_leak / shared_draws_secrecy_fails: with one coefficient set shared by all bytes every single "
+                  "share satisfies value[i]^value[j] = secret[i]^secret[j] and the map is not onto. "
                   "Tie to the code: all numeric literals of Shamir.cpp, the width of the share-index counter and both tables (dumped from the "
                   "compiled build_exp_table/build_log_table) are regenerated on every run and the proofs depend on them "
                   "(tables_match_source); the real Shamir.cpp (anonymous-namespace GF functions included) runs in-process against the "
                   "compiled model: the complete gf_mul / gf_div tables, split over boundary/random (t, n) pairs and, thorough tier, the "
                   "triangle 1 <= t <= n <= 255 (every pair for n <= 64, seven thresholds for every larger n), combine on random subsets/orders and malformed sets, with the Lean specification "
-                  "(field axioms on the exhibited table, polynomial-consistency of the shares, spec-field Lagrange reconstruction) judging "
-                  "every line.",
+                  "(field axioms on the exhibited table, polynomial-consistency of the shares, spec-field Lagrange reconstruction, number of "
+                  "values taken from the interposed random device = 32(t-1) and no common random part across bytes) judging every line.",
     "level_note": "Holds on the tree with the two C10 fix patches applied (the model follows the repaired code). Trusted: Lean kernel and "
                   "the Mathlib modules imported (Algebra.Field.Defs, LinearAlgebra.Lagrange); the hand transcription of gf_mul/gf_div/"
                   "evaluate_polynomial/interpolate/split/combine into Lean (checked by the differential run; 7 hand-made mutants and the "
@@ -71,6 +76,52 @@ def _py_tables(poly: int, bit: int, fill: int, wrap: int, size: int, logfill: in
     return exp, log
 
 
+def _strip_cxx_comments(text: str) -> str:
+    text = re.sub(r"/\*.*?\*/", " ", text, flags=re.S)
+    return re.sub(r"//[^\n]*", " ", text)
+
+
+def _block(text: str, open_at: int) -> int:
+    """index just past the `}` matching the `{` at text[open_at]"""
+    depth = 0
+    for i in range(open_at, len(text)):
+        if text[i] == "{":
+            depth += 1
+        elif text[i] == "}":
+            depth -= 1
+            if depth == 0:
+                return i + 1
+    return len(text)
+
+
+def draw_site(txt: str):
+    """Where does Shamir::split call the random device relative to its per-byte loop?
+    Returns (inside: bool | None, detail).  inside=True: every `rd()` call of split lies in the body of the
+    `for (... byte ...)` loop (a fresh set of draws per secret byte); False: some call lies outside."""
+    txt = _strip_cxx_comments(txt)
+    m = re.search(r"Shamir::split\s*\([^)]*\)\s*\{", txt, flags=re.S)
+    if not m:
+        return None, "Shamir::split not found"
+    start = m.end() - 1
+    body = txt[start:_block(txt, start)]
+    dev = re.search(r"std::random_device\s+(\w+)\s*;", body)
+    if not dev:
+        return None, "no std::random_device in Shamir::split"
+    name = dev.group(1)
+    calls = [c.start() for c in re.finditer(r"\b%s\s*\(\s*\)" % re.escape(name), body)]
+    other = [c.start() for c in re.finditer(r"\b%s\b" % re.escape(name), body)
+             if c.start() != dev.start(1) and c.start() not in calls]
+    lp = re.search(r"for\s*\(\s*std::size_t\s+byte\s*=[^;]*;[^;]*;[^)]*\)\s*\{", body)
+    if not lp:
+        return None, "per-byte loop not found"
+    lo, hi = lp.end() - 1, _block(body, lp.end() - 1)
+    if not calls:
+        return None, "no direct call of the random device (passed to something else?)"
+    inside = all(lo <= c < hi for c in calls) and all(lo <= c < hi for c in other)
+    return inside, f"{len(calls)} call(s), {'all inside' if inside else 'some outside'} the per-byte loop"
+
+
+
 def extract():
     vals, gaps = extract_consts([
         Const("kFieldPolynomial", SRC, r"kFieldPolynomial\s*=\s*([^;]+);", default=0x11D),
@@ -85,6 +136,7 @@ def extract():
         Const("kDivMod", SRC, r"auto index = diff % (\d+);", default=255),
         Const("kDivAdd", SRC, r"if \(index < 0\) \{\s*index \+= (\d+);", default=255),
         Const("kShareIndexStart", SRC, r"for\s*\([\w:\s]+?\bshare_index = (\d+); share_index <= share_count;", default=1),
+        Const("kDegreeStart", SRC, r"for\s*\(std::uint8_t degree = (\d+); degree < threshold; \+\+degree\)", default=1),
         Const("kSecretBytes", HDR, r"struct ShamirShare\s*\{.*?std::array<std::uint8_t,\s*(\d+)>\s+value", default=32),
         Const("kInterpolateBytes", SRC, r"std::array<std::uint8_t,\s*(\d+)>\s+secret\{\};", default=32),
     ])
@@ -96,6 +148,11 @@ def extract():
         gaps.append("kShareIndexModulus: loop counter type of share_index not recognised")
         bits = 32
     vals["kShareIndexModulus"] = 2 ** bits
+    # consumption pattern of the random draws: a fresh set per secret byte (call inside the per-byte loop) or one shared set
+    inside, detail = draw_site(txt)
+    if inside is None:
+        gaps.append(f"kDrawPerByte: {detail}")
+        inside = True
     # the two tables, as the compiled source builds them (the harness dumps build_exp_table / build_log_table)
     exp = log = None
     try:
@@ -118,7 +175,10 @@ def extract():
         rows = [", ".join(str(v) for v in xs[i:i + 32]) for i in range(0, len(xs), 32)]
         return f"def {name} : List Nat := [\n  " + ",\n  ".join(rows) + "]"
 
-    body = lean_consts(vals) + "\n\n" + \
+    body = lean_consts(vals) + "\n" + \
+        "/-- `true`: Shamir::split calls the random device inside its per-byte loop (fresh coefficients for every secret byte);\n" \
+        "    `false`: outside (one coefficient set shared by all bytes).  " + detail.replace("-/", "") + " -/\n" + \
+        f"def kDrawPerByte : Bool := {'true' if inside else 'false'}\n\n" + \
         "/-- `build_exp_table()` as computed by the compiled source. -/\n" + lst("expTableLit", exp) + "\n\n" + \
         "/-- `build_log_table(build_exp_table())` as computed by the compiled source. -/\n" + lst("logTableLit", log)
     write_generated(PID, body)
@@ -362,7 +422,10 @@ def spec() -> Spec:
              "non-trivial = the implementation returned a value and (where the shape contains one) rejected a bad set",
         trusted_base=["std::random_device is replaced in the harness by a deterministic stream (link-time interposition of its three "
                       "out-of-line members); the quality of the real entropy source is outside the model",
-                      "split runs on a watched worker thread of the harness with a 2 s CPU-time limit (a hang is reported as `timeout`, the harness then re-executes itself and resumes; a valid split needs milliseconds)"],
+                      "split runs on a watched worker thread of the harness with a 2 s CPU-time limit (a hang is reported as `timeout`, the harness then re-executes itself and resumes; a valid split needs milliseconds)",
+                      "the position of the random-device call relative to the per-byte loop is found by brace matching on the source text "
+                      "(kDrawPerByte); a random source that is not a direct std::random_device call is reported as a translator gap and is "
+                      "then only covered by the run-time clause split-draws"],
         assumptions=["share indices and bytes are uint8 values (the C++ types guarantee it); secrets are 32 bytes"],
         per_case_timeout=60.0,
         batch=1000,
